@@ -584,6 +584,25 @@ def check_base(ctx: Ctx) -> None:
     rq = [n_ for n_, _ in fr]
     ok = len(fr) == 1 and any("excluded_names" in names_in(e_) for e_ in fr[0][1]) and any("grammar._required_names" in norm_stmt(e_, 300) for e_ in fr[0][1])
     ctx.ob("15.2-update", con, ok, "updating from a grammar adds its required names, except for the excluded names", node=(rq or [f])[0], stmt="required_names |= other's required minus excluded")
+    # ... *except*: the excluded names filter OUT (`k not in excluded`, `names - excluded`), they do not select
+    def selects_excluded(e: ast.AST, pos: bool = True) -> bool:
+        if isinstance(e, ast.UnaryOp) and isinstance(e.op, ast.Not):
+            return selects_excluded(e.operand, not pos)
+        if isinstance(e, ast.Compare) and len(e.ops) == 1 and isinstance(e.ops[0], (ast.In, ast.NotIn)) and "excluded_names" in names_in(e.comparators[0]):
+            return (isinstance(e.ops[0], ast.In)) == pos
+        def is_excl(x: ast.AST) -> bool:
+            return dotted(x) == "excluded_names" or (isinstance(x, ast.Call) and dotted(x.func) in ("set", "frozenset", "list", "tuple") and len(x.args) == 1 and dotted(x.args[0]) == "excluded_names")
+
+        if isinstance(e, ast.BinOp) and isinstance(e.op, ast.BitAnd) and (is_excl(e.left) or is_excl(e.right)):
+            return pos
+        if isinstance(e, ast.Call) and isinstance(e.func, ast.Attribute) and e.func.attr in ("intersection", "intersection_update") and any(is_excl(a_) for a_ in e.args):
+            return pos
+        return any(selects_excluded(ch, pos) for ch in ast.iter_child_nodes(e) if isinstance(ch, ast.expr) or isinstance(ch, ast.comprehension)) if not isinstance(e, ast.comprehension) else any(selects_excluded(x, pos) for x in [e.iter, *e.ifs])
+
+    for what, recs in (("defaults", fd), ("required names", fr)):
+        for node_, exprs in recs:
+            bad = [norm_stmt(e_, 80) for e_ in exprs if selects_excluded(e_)]
+            ctx.ob("15.2-update", con, not bad, f"the {what} of the excluded names are the ones brought in ({'; '.join(bad)}): the exclusion is inverted", node=node_, stmt=f"{what}: the excluded names are filtered out, not selected")
     ok = h and du and rq and cfg_of(f).reachable(cfg_of(f).node_of(h[0]), cfg_of(f).node_of(du[0])) and cfg_of(f).reachable(cfg_of(f).node_of(h[0]), cfg_of(f).node_of(rq[0])) and not cfg_of(f).reachable(cfg_of(f).node_of(du[0]), cfg_of(f).node_of(h[0]))
     ctx.ob("15.2-update", con, bool(ok), "the elements must be added before their defaults and required names are (both are checked against the elements)", node=(h or [f])[0], stmt="_update before defaults/required")
     # 15.4 validate
@@ -794,6 +813,8 @@ def run(ctx: Ctx) -> None:
 
 # ---------------------------------------------------------------------------
 WITNESSES = [
+    {"name": "update-brings-the-defaults-of-the-excluded-names", "file": BG, "old": "k: v for k, v in grammar._defaults.items() if k not in excluded_names", "new": "k: v for k, v in grammar._defaults.items() if k in excluded_names", "expect": "15.2"},
+    {"name": "update-requires-the-excluded-names", "file": BG, "old": "(grammar.keys() - excluded_names).intersection(", "new": "(grammar.keys() & set(excluded_names)).intersection(", "expect": "15.2"},
     {"name": "setstate-leaves-required-in-the-builder", "file": JG, "old": "        # The required names are handled by _required_names.\n        self.__schema_builder.required.clear()\n", "new": "", "expect": "15.8"},
     {"name": "required-of-the-import-read-from-the-builder", "file": JG, "old": "        self._required_names |= set(schema.get(\"required\", ()))\n", "new": "        self._required_names |= self.__schema_builder.required\n", "expect": "15.8"},
     {"name": "update-excludes-on-a-shallow-copy", "file": JG, "old": "            schema_builder = deepcopy(grammar.__schema_builder)", "new": "            schema_builder = copy(grammar.__schema_builder)", "expect": "15.7"},
